@@ -2,12 +2,6 @@
 
 package wsutil
 
-import (
-	"io"
-
-	"github.com/gobwas/ws"
-)
-
 // vLayout describes where the frames of one generated stream start/end on the wire.
 type vFrameSpan struct {
 	start, hdrEnd, end int
@@ -47,173 +41,4 @@ func vGenCut(server bool) (wire []byte, spans []vFrameSpan) {
 	}
 	add(true, 2, 1, true, true, false, false) // sentinel
 	return wire, spans
-}
-
-// C16_reader_cut: a stream that ends (EOF) or fails at ANY byte offset never yields a
-// complete-looking message, a clean end of stream inside a message, or a shortened control
-// payload.
-func C16_reader_cut() {
-	server := vChoose("side", 2) == 0
-	wire, spans := vGenCut(server)
-	item := spans[:len(spans)-1] // frames of the first item
-	itemEnd := item[len(item)-1].end
-	cut := vChoose("cut", itemEnd) // 0 .. itemEnd-1: the first item is always incomplete
-	useErr := vChoose("kind", 2) == 1
-	one := vChoose("chunk", 2) == 1
-	// classify the cut position
-	inPayloadOrBetween := false // strictly after a complete header of the item, or between its frames
-	for _, sp := range item {
-		if cut >= sp.hdrEnd && cut < sp.end {
-			inPayloadOrBetween = true
-		}
-		if cut == sp.end { // a frame boundary inside the item (not its end)
-			inPayloadOrBetween = true
-		}
-	}
-	if cut == 0 {
-		inPayloadOrBetween = false
-	}
-	api := vChoose("api", 4)
-	switch api {
-	case 0: // Reader + read until EOF
-		src := &vCutSrc{data: wire, cut: cut, useErr: useErr, one: one}
-		var handed [][]byte
-		rd := &Reader{Source: src, State: vSide(server), CheckUTF8: true}
-		rd.OnIntermediate = func(h ws.Header, r io.Reader) error {
-			p, err := vReadAllB(r, 16)
-			if err == io.EOF {
-				handed = append(handed, p)
-				vAssert(int64(len(p)) == h.Length, "cut.intermediate_handler_gets_whole_payload_or_error")
-				return nil
-			}
-			return err
-		}
-		_, err := rd.NextFrame()
-		if err == nil {
-			_, err = vReadAllB(rd, 16)
-			vAssert(err != io.EOF, "cut.read_until_eof_never_completes")
-			vAssert(err != nil, "cut.read_reports_error")
-		} else if cut > 0 {
-			vAssert(true, "cut.header_cut_is_error")
-		}
-		if useErr && err != nil && cut > 0 {
-			// a transport error must not be turned into a clean EOF
-			vAssert(err != io.EOF, "cut.transport_error_not_eof")
-		}
-	case 1: // Discard
-		src := &vCutSrc{data: wire, cut: cut, useErr: useErr, one: one}
-		rd := &Reader{Source: src, State: vSide(server)}
-		_, err := rd.NextFrame()
-		if err == nil {
-			vAssert(rd.Discard() != nil, "cut.discard_of_cut_message_fails")
-		}
-	case 2: // ReadMessage
-		src := &vCutSrc{data: wire, cut: cut, useErr: useErr, one: one}
-		ms, err := ReadMessage(src, vSide(server), nil)
-		vAssert(err != nil, "cut.readmessage_fails")
-		if inPayloadOrBetween {
-			vAssert(err != io.EOF, "cut.readmessage_not_clean_eof")
-		}
-		for _, m := range ms {
-			_ = m
-		}
-		// no (control) message is returned shortened
-		for i, m := range ms {
-			if i < len(item) && item[1].interm && len(item) == 3 {
-				vAssert(len(m.Payload) == item[1].end-item[1].hdrEnd, "cut.readmessage_no_shortened_control")
-			}
-		}
-	case 3: // readData
-		rw := &vCutRW{vCutSrc: vCutSrc{data: wire, cut: cut, useErr: useErr, one: one}}
-		p, _, err := readData(rw, vSide(server), ws.OpText|ws.OpBinary)
-		vAssert(err != nil, "cut.readdata_fails")
-		_ = p // bytes returned together with a non-nil error are not a success report (not asserted)
-		if inPayloadOrBetween {
-			vAssert(err != io.EOF, "cut.readdata_not_clean_eof")
-		}
-		// a pong is only ever sent for a completely received ping
-		fs, ok := vParseFrames(rw.out)
-		if ok {
-			for _, f := range fs {
-				if f.op == 10 {
-					for _, sp := range item {
-						if sp.control {
-							vAssert(len(f.payload) == sp.end-sp.hdrEnd, "cut.no_pong_for_shortened_ping")
-						}
-					}
-				}
-			}
-		}
-	}
-}
-
-// C16_readframe_cut: ws.ReadFrame of a cut frame returns an error.
-func C16_readframe_cut() {
-	n := 1 + vChoose("plen", 3)
-	f := vFrame{fin: true, op: 2, masked: vChoose("masked", 2) == 1, key: [4]byte{1, 2, 3, 4}, payload: vBytes("p", n)}
-	wire := vEncode(f)
-	cut := vChoose("cut", len(wire))
-	src := &vCutSrc{data: wire, cut: cut, useErr: vChoose("kind", 2) == 1, one: vChoose("chunk", 2) == 1}
-	_, err := ws.ReadFrame(src)
-	vAssert(err != nil, "cut.readframe_fails")
-	_, err = ws.ReadHeader(&vCutSrc{data: wire, cut: vChoose("hcut", len(wire)-n)})
-	vAssert(err != nil, "cut.readheader_fails")
-}
-
-// C16_writer_sticky: once the destination has failed, every later write and flush reports the
-// error and sends nothing more.
-func C16_writer_sticky() {
-	server := vChoose("side", 2) == 0
-	bufLen := 2
-	op := ws.OpText
-	if vChoose("mode", 2) == 0 {
-		// (a) arbitrary state with a sticky error already set: one operation
-		dst := &vDst{failAt: -1}
-		w := vMkWriter(dst, server, bufLen, op)
-		w.n = vChoose("n", bufLen+1)
-		w.fseq = vChoose("fseq", 2)
-		w.dirty = vBool("dirty")
-		w.noFlush = vBool("noflush")
-		w.err = vErrDst
-		var err error
-		switch vChoose("kind", 4) {
-		case 0:
-			_, err = w.Write(vBytes("p", vChoose("plen", 6)))
-		case 1:
-			_, err = w.WriteThrough(vBytes("p", vChoose("plen", 4)))
-		case 2:
-			err = w.Flush()
-		case 3:
-			err = w.FlushFragment()
-		}
-		vAssert(err == vErrDst, "sticky.error_returned")
-		vAssert(len(dst.calls) == 0, "sticky.nothing_sent")
-		return
-	}
-	// (b) the j-th destination write fails during a sequence
-	dst := &vDst{failAt: vChoose("failat", 3)}
-	w := vMkWriter(dst, server, bufLen, op)
-	failedSeen := false
-	callsAtFail := 0
-	for s := 0; s < 4; s++ {
-		var err error
-		switch vChoose("kind", 3) {
-		case 0:
-			_, err = w.Write(vBytes("p", []int{1, 3, 5}[vChoose("plen", 3)]))
-		case 1:
-			err = w.FlushFragment()
-		case 2:
-			err = w.Flush()
-		}
-		if failedSeen {
-			vAssert(err != nil, "sticky.later_ops_fail")
-			vAssert(len(dst.calls) == callsAtFail, "sticky.no_bytes_after_failure")
-		}
-		if dst.failed && !failedSeen {
-			vAssert(err != nil, "sticky.failure_reported_by_failing_op")
-			failedSeen = true
-			callsAtFail = len(dst.calls)
-		}
-	}
-	// (a frame torn by the failing write itself is a truncation, not a hole: not asserted)
 }
